@@ -349,10 +349,13 @@ def case_encode_read(arg):
     """Direction B: reference encoder -> every library reader."""
     import warnings
     warnings.simplefilter('ignore')
-    tid, item = arg
+    tid, item = arg[:2]
     cfg = item['cfg']
     names = spcnames(cfg)
-    tmp = scratch('camxB')
+    # (arg[2]: a directory that outlives the case - several files are written
+    # to ONE path, one after the other, in one process: case_same_path)
+    keep = arg[2] if len(arg) > 2 else None
+    tmp = keep or scratch('camxB')
     try:
         path = os.path.join(tmp, 'ref.%s' % cfg['fmt'])
         data = serialise(item['recs'], cfg)
@@ -399,6 +402,22 @@ def case_encode_read(arg):
             except Exception as ex:
                 tr['autocls'] = 'raised:' + type(ex).__name__
         return tr
+    finally:
+        if keep is None:
+            shutil.rmtree(tmp, ignore_errors=True)
+
+
+def case_same_path(arg):
+    """Files of one format and one byte size but different layer / step
+    splits, written to the SAME path one after the other and read by every
+    reader in one process (what a reader presents depends on the file, not on
+    what was at that path before)."""
+    tid, items = arg
+    tmp = scratch('camxS')
+    try:
+        return {'tid': tid, 'kind': 'group', 'traces': [
+            case_encode_read((tid + k, it, tmp))
+            for k, it in enumerate(items)]}
     finally:
         shutil.rmtree(tmp, ignore_errors=True)
 
